@@ -154,6 +154,26 @@ pub fn emit_step<T: Sc>(out: &mut Out, cid: &str, prop: &str, target: &AnyTarget
     let _ = lh;
 }
 
+/// one `NUTSChain::step` on a thread of its own: `None` if it has not returned after `secs` seconds (the library has no
+/// tree-depth cap, so a transition that cannot terminate would otherwise block the whole run until the check's timeout)
+pub fn step_wd<T: Sc, B: AutodiffBackend>(mut c: NUTSChain<T, B, AnyTarget>, secs: u64) -> Option<(NUTSChain<T, B, AnyTarget>, Vec<String>)>
+where
+    StandardNormal: rand::distr::Distribution<T>,
+    StandardUniform: rand_distr::Distribution<T>,
+    Exp1: rand_distr::Distribution<T>,
+    T: rand_distr::uniform::SampleUniform + num_traits::FromPrimitive,
+    NUTSChain<T, B, AnyTarget>: Send + 'static,
+{
+    let (tx, rx) = std::sync::mpsc::channel();
+    std::thread::spawn(move || {
+        verif_hooks::tl_enable();
+        c.step();
+        let ev = verif_hooks::tl_drain();
+        let _ = tx.send((c, ev));
+    });
+    rx.recv_timeout(std::time::Duration::from_secs(secs)).ok()
+}
+
 fn transitions<T: Sc, B: AutodiffBackend>(out: &mut Out, rng: &mut Sm)
 where
     StandardNormal: rand::distr::Distribution<T>,
@@ -213,9 +233,18 @@ where
                 c.position = t1::<T, B>(&moved);
                 out.count("position_overwritten_between_transitions");
             }
-            verif_hooks::tl_enable();
-            c.step();
-            let ev = verif_hooks::tl_drain();
+            static HANGS: std::sync::atomic::AtomicUsize = std::sync::atomic::AtomicUsize::new(0);
+            if HANGS.load(std::sync::atomic::Ordering::SeqCst) >= 2 {
+                out.count("transitions_skipped_after_hangs");
+                return;
+            }
+            let Some((c2, ev)) = step_wd::<T, B>(c, 60) else {
+                HANGS.fetch_add(1, std::sync::atomic::Ordering::SeqCst);
+                out.fail(&format!("{id}.{k}"), "C03:transition-hang", "a NUTS transition did not finish within 60 s", (dim * n_steps) as u64,
+                    format!("{} {} dim {dim} seed {seed} step {k}", T::NAME, target.spec::<T>()));
+                return;
+            };
+            c = c2;
             match parse_step(&ev) {
                 Some(tr) if tr.depth <= 11 => emit_step::<T>(out, &format!("{id}.{k}"), "C03", &target, &tr, (dim * (1usize << tr.depth.min(12))) as u64),
                 Some(_) => out.count("transitions_too_deep_to_replay"),
@@ -408,9 +437,11 @@ where
                     out.count("history_cut_step_size_collapsed");
                     break;
                 }
-                verif_hooks::tl_enable();
-                c.step();
-                let ev = verif_hooks::tl_drain();
+                let Some((c2, ev)) = step_wd::<T, B>(c, 60) else {
+                    out.fail(&cid, "C04:transition-hang", "a NUTS transition did not finish within 60 s (step size usable?)", size, format!("{} {} seed {seed}", T::NAME, target.spec::<T>()));
+                    return;
+                };
+                c = c2;
                 let Some(tr) = parse_step(&ev) else {
                     out.fail(&cid, "C04:no-trace", "NUTS step produced no hook trace", size, String::new());
                     return;
